@@ -60,7 +60,7 @@ def run(ctx):
 
     def one(job):
         cc, what, must_pass = job
-        return job, lib.tlc("MC_Threads", cfg=cc, workers=1 if q else 2, timeout=1500, heap="3g", coverage=must_pass, deadlock=True)
+        return job, lib.tlc("MC_Threads", cfg=cc, workers=1 if q else 2, timeout=1500, heap="3g", coverage=must_pass, deadlock=True, tag=cc)
     with cf.ThreadPoolExecutor(4) as ex:
         results = list(ex.map(one, jobs))
     for (cc, what, must_pass), rr in results:
